@@ -17,7 +17,14 @@ func MakeVirtualHostBucketAddressingMiddleware(baseEndpoint string, next http.Ha
 		if hostname != baseEndpoint && strings.HasSuffix(hostname, endpointSuffix) {
 			bucket := strings.TrimSuffix(hostname, endpointSuffix)
 			if bucket != "" {
-				r.URL.Path = strings.TrimSuffix("/"+bucket+r.URL.Path, "/")
+				// Only the bare bucket root ("/" or "") maps to "/<bucket>"; a trailing
+				// slash that belongs to the object key (folder markers such as
+				// "folder/") must survive the rewrite, exactly as in path style.
+				if r.URL.Path == "/" || r.URL.Path == "" {
+					r.URL.Path = "/" + bucket
+				} else {
+					r.URL.Path = "/" + bucket + r.URL.Path
+				}
 			}
 		}
 		next.ServeHTTP(w, r)
